@@ -31,6 +31,22 @@ CLAIMED = {
              "n-fold Kronecker induction over an arbitrary axes list is validated, the 2-factor step is proved.",
         technique="Lean 4 proof over translator-generated pipeline + exact quantised differential correspondence",
         design="DESIGN.md §3 C05, §9"),
+    "C03": dict(
+        text="Lean 4 theorems about an operator-algebra model (Op = oshape, ishape, app; leaves are dense matrices): A*B applies B "
+             "then A and is accepted iff A.ishape = B.oshape; A+B/A-B/-A/a*A/A*a laws; _hstack_params/_vstack_params: accepted iff axis "
+             "in [-ndim, ndim) and shapes agree off the normalised axis, returned indices are the prefix sums of the operand sizes for "
+             "every list of shapes, axis=None accepts everything; the _apply slab bounds [S_k, S_{k+1}) (open-ended last) read back the "
+             "parts of a concatenation and write a concatenation with nothing unwritten or overwritten; Vstack applies along the "
+             "normalised axis with the summed oshape; misfits rejected. Tie: axis normalisation, fold step, append-before-advance "
+             "order and rejection test extracted from linop.py into Gen/StackParams.lean each run (gen_params_agree, "
+             "gen_apply_axis_agree) + exact Gaussian-rational correspondence of random expression trees (incl. malformed ones) "
+             "built both in sigpy and in the Lean driver.",
+        note="Trusted: Lean kernel; translator gen_c03; numpy slicing / slice assignment semantics (sliceAx/rowWrite) and the "
+             "sequential per-dimension loop of _hstack_params are tied by correspondence only; operator-level hstack_block_row / "
+             "diag_block_diag (geometry glue from slab lemmas to N-d arrays) are validated, not proved; shape guards modelled as "
+             "equality (inputs of a different rank are outside the modelled domain).",
+        technique="Lean 4 proof over operator-algebra model + translator tie + exact differential correspondence of expression trees",
+        design="DESIGN.md §3 C03, §9"),
 }
 NOT_YET = "check not built yet in this round (framework exists; see DESIGN.md §8 build order)"
 
